@@ -1348,6 +1348,90 @@ theorem run_core (sc : Script) (σ : St)
   rw [steps_append]
   exact steps_procs sc.outcome _ _ rfl hph
 
+/-! ### monotone parts of the state; losses over many steps -/
+
+theorem log_mono {σ : St} (op : Op) {e : Ev} (h : e ∈ σ.log) : e ∈ (step σ op).log := by
+  cases op with
+  | tick dt => simp only [OG.C14.step]; split <;> exact h
+  | alter d => exact h
+  | load sid =>
+    simp only [OG.C14.step, loadShard]
+    split
+    · exact h
+    · split <;> exact h
+  | close sid => exact h
+  | refresh ok =>
+    simp only [OG.C14.step]
+    split
+    · split <;> exact h
+    · exact h
+  | collect => simp only [OG.C14.step]; split <;> exact h
+  | proc o =>
+    simp only [OG.C14.step]
+    split
+    · simp only [procItem]; exact List.mem_append_right _ h
+    · exact h
+  | complete => simp only [OG.C14.step]; rw [completeAll_log]; exact h
+
+theorem steps_log_mono {σ : St} (ops : List Op) {e : Ev} (h : e ∈ σ.log) : e ∈ (steps σ ops).log := by
+  induction ops generalizing σ with
+  | nil => exact h
+  | cons op r ih => exact ih (log_mono op h)
+
+theorem PendInv.steps {σ : St} (h : PendInv σ) (ops : List Op) : PendInv (steps σ ops) := by
+  induction ops generalizing σ with
+  | nil => exact h
+  | cons op r ih => exact ih (h.step op)
+
+theorem EngUniq.steps {σ : St} (h : EngUniq σ) (ops : List Op) : EngUniq (steps σ ops) := by
+  induction ops generalizing σ with
+  | nil => exact h
+  | cons op r ih => exact ih (h.step op)
+
+/-- a shard object that is in the store now and not after `ops` left through a recorded delete. -/
+theorem shard_loss_recorded {σ : St} (hp : PendInv σ) (ops : List Op) (sid : Nat)
+    (hin : ∃ s ∈ σ.eng, s.sid = sid) (hout : ∀ s ∈ (steps σ ops).eng, s.sid ≠ sid) :
+    ∃ e ∈ (steps σ ops).log, e.kind = .deletedShard ∧ e.id = sid := by
+  induction ops generalizing σ with
+  | nil =>
+    obtain ⟨s, hs, hsid⟩ := hin
+    exact absurd hsid (hout s hs)
+  | cons op r ih =>
+    by_cases hmid : ∃ s ∈ (step σ op).eng, s.sid = sid
+    · exact ih (hp.step op) hmid hout
+    · obtain ⟨s, hs, rfl⟩ := hin
+      obtain ⟨e, he, hh⟩ := shard_leaves_logged hp op s hs (fun s' hs' hsid => hmid ⟨s', hs', hsid⟩)
+      exact ⟨e, steps_log_mono r he, hh⟩
+
+/-- a group that is live now and has no live successor after `ops` was marked by a recorded call. -/
+theorem group_loss_recorded {σ : St} (ops : List Op) (gid : Nat)
+    (hin : ∃ g ∈ σ.cat, g.gid = gid ∧ g.deleted = false)
+    (hout : ∀ g' ∈ (steps σ ops).cat, g'.gid = gid → g'.deleted = true) :
+    ∃ e ∈ (steps σ ops).log, e.kind = .markedGroup ∧ e.id = gid := by
+  induction ops generalizing σ with
+  | nil =>
+    obtain ⟨g, hg, hgid, hl⟩ := hin
+    have := hout g hg hgid
+    rw [hl] at this; exact Bool.noConfusion this
+  | cons op r ih =>
+    by_cases hmid : ∃ g ∈ (step σ op).cat, g.gid = gid ∧ g.deleted = false
+    · exact ih hmid hout
+    · obtain ⟨g, hg, rfl, hl⟩ := hin
+      obtain ⟨e, he, hh⟩ := group_marked_logged op g hg hl (fun g' hg' hgid => by
+        cases hd : g'.deleted
+        · exact absurd ⟨g', hg', hgid, hd⟩ hmid
+        · rfl)
+      exact ⟨e, steps_log_mono r he, hh⟩
+
+theorem GI.steps {cat0 : List Group} {σ : St} (hw : WF σ) (h : GI cat0 σ) (ops : List Op) :
+    GI cat0 (steps σ ops) := by
+  induction ops generalizing σ with
+  | nil => exact h
+  | cons op r ih => exact ih (hw.step op) (h.step hw op)
+
+theorem GI.self (σ : St) : GI σ.cat σ :=
+  fun g0 hg0 hd => Or.inl ⟨g0, hg0, rfl, rfl, rfl, hd⟩
+
 theorem WF.steps {σ : St} (h : WF σ) (ops : List Op) : WF (steps σ ops) := by
   induction ops generalizing σ with
   | nil => exact h
